@@ -34,6 +34,7 @@ func propGen(prop, tier string, idx int) GenOpts {
 	case "C01":
 		o.WLife = [3]int{6, 2, 2}
 		o.PMulti, o.PResult, o.PAs, o.PAs2 = 200, 200, 300, 500
+		o.PReuseType, o.PName = 300, 250
 		o.NoMultiAs = false
 		conc(1, 3)
 		o.WOp = [8]int{0, 10, 4, 4, 1, 0, 0, 0}
@@ -86,6 +87,7 @@ func propGen(prop, tier string, idx int) GenOpts {
 		o.PProbeUnregistered = 250
 		o.PAs, o.PAs2 = 400, 500
 		o.PEmbedType = 250
+		o.PInstance, o.PReuseType = 150, 300
 		o.NoMultiOpts, o.NoResultGroup = false, false
 		o.PResultGroup = 300
 		conc(1, 1)
